@@ -211,9 +211,17 @@ def run(plan, sched_values=None, sched_seed=0):
             continue
         ma = [arg for ev, arg in ea if ev == 'message']
         mb = [arg for ev, arg in eb if ev == 'message']
+        # (synchronous handlers: dispatch order is compared, except among
+        # messages that reached the server in the same instant on different
+        # channels - a tie)
+        ta = sorted(((t, repr(_key(arg))) for ev, arg, sid, t in a['events']
+                     if ev == 'message'))
+        tb = sorted(((t, repr(_key(arg))) for ev, arg, sid, t in b['events']
+                     if ev == 'message'))
         same = (sorted(map(_key, ma), key=repr) ==
                 sorted(map(_key, mb), key=repr)) if bg else \
-            ([_key(x) for x in ma] == [_key(x) for x in mb])
+            ([_key(x) for x in ma] == [_key(x) for x in mb] or
+             [k for _t, k in ta] == [k for _t, k in tb])
         if not same and not _ended_differently(a, b, T):
             only_a = [x for x in ma if _key(x) not in set(map(_key, mb))]
             only_b = [x for x in mb if _key(x) not in set(map(_key, ma))]
